@@ -95,7 +95,7 @@ def fromStringBase (s : List Char) (b : Nat) : Option Int :=
   | '-' :: cs => (horner b cs 0).map (fun n => -(n : Int))
   | cs => (horner b cs 0).map (fun n => (n : Int))
 
-def nanText : List Char := "너무 커엇...".toList
+def nanText : List Char := ['너', '무', ' ', '커', '엇', '.', '.', '.']
 
 /-- `Display for Num` -/
 def display (n : NumI) : List Char :=
@@ -108,20 +108,23 @@ def splitSlash (s : List Char) : List (List Char) :=
     | [] => [[c]]
     | h :: t => (c :: h) :: t) [[]]
 
+/-- `s.starts_with('-')` then `s[1..]` -/
+def stripMinus : List Char → Bool × List Char
+  | '-' :: r => (true, r)
+  | r => (false, r)
+
+/-- `s.split('/')`, one part: integer, more parts: the first two as numerator/denominator -/
+def parseRat (s : List Char) : Option NumI :=
+  match splitSlash s with
+  | [a] => (fromStringBase a 10).map (fun u => fromBigNum u 1)
+  | a :: b :: _ => match fromStringBase a 10, fromStringBase b 10 with
+    | some u, some d => some (fromBigNum u d)
+    | _, _ => none
+  | [] => none
+
 /-- `Num::from_string` (`none` = the `unwrap` on a `ParseError` panics) -/
 def fromString (s : List Char) : Option NumI :=
   if s = nanText then some nan
-  else
-    let (neg?, s) := match s with
-      | '-' :: r => (true, r)
-      | r => (false, r)
-    let parts := splitSlash s
-    let res : Option NumI := match parts with
-      | [a] => (fromStringBase a 10).map (fun u => fromBigNum u 1)
-      | a :: b :: _ => match fromStringBase a 10, fromStringBase b 10 with
-        | some u, some d => some (fromBigNum u d)
-        | _, _ => none
-      | [] => none
-    res.map (fun r => if neg? then neg r else r)
+  else (parseRat (stripMinus s).2).map (fun r => if (stripMinus s).1 then neg r else r)
 
 end HyN
